@@ -1373,6 +1373,9 @@ package vm
 //@   requires [table2] forall o int :: 0 <= o && o < 256 && in.jumpTable[o] != nil && in.jumpTable[o].memorySize != nil ==> in.jumpTable[o].dynamicGas != nil
 //@   requires [table3] forall o int :: 0 <= o && o < 256 && o != 241 && in.jumpTable[241] != nil ==> in.jumpTable[o] != in.jumpTable[241]
 //@   requires [errs!init] !istype(ErrWriteProtection, *ErrStackOverflow) && !istype(ErrOutOfGas, *ErrStackOverflow) && !istype(ErrGasUintOverflow, *ErrStackOverflow) && !istype(ErrExecutionReverted, *ErrStackOverflow) && !istype(ErrWriteProtection, *ErrStackUnderflow) && !istype(ErrOutOfGas, *ErrStackUnderflow) && !istype(ErrGasUintOverflow, *ErrStackUnderflow) && !istype(ErrExecutionReverted, *ErrStackUnderflow)
+//@   # a frame starts with an empty return-data buffer (EIP-211): whatever an earlier frame of this interpreter
+//@   # returned is not visible to RETURNDATASIZE / RETURNDATACOPY of a new one (C10)
+//@   loop 0: atentry len(in.returnData) == 0
 //@   loop 0: invariant in.evm == old(in.evm) && in.evm.depth == old(in.evm.depth) + 1 && in.readOnly == (old(in.readOnly) || readOnly)
 //@   loop 0: invariant callContext.stack == stack && callContext.memory == mem && callContext.contract == contract
 //@   loop 0: invariant in.jumpTable == old(in.jumpTable) && samecomp("vm.operation")
